@@ -70,7 +70,9 @@ def mc_jobs(ctx):
     ]
     if q:       # quick tier: only the deviations still present in the code under test (every TLC run costs a JVM start);
         # the configurations of the repaired ones (known_findings.jsonl: fixed) are checked in the thorough tier
-        jobs = [j for j in jobs if not j[0].startswith("flag:") or j[0] == "flag:service-handler-not-repointed"]
+        # (round 4: every named deviation is repaired in /repo by now; the configuration "dups" and its witness take the place
+        # of the last flag configuration)
+        jobs = [j for j in jobs if not j[0].startswith("flag:")]
     for w in ("W_NoTwoDeclarers", "W_NoRefusal"):
         jobs.append((w, {"DeclSet": "{1}", "Ctx": '{"c1", "c2"}', "MaxSteps": 3, "Acts": acts("define", "del")}, [w], [], {w}))
     w = "W_NoDuplicateDeclarationEnded"
